@@ -812,11 +812,40 @@ class StrTr:
                 return f"(match {self.optional[ttext]} with | some e__ => e__ | none => {b})", "str"
         raise Untranslatable(f"unsupported expression `{text}`")
 
+    def _unpack(self, target, value):
+        """`*init, last = xs`, `first, *rest = xs`, `first, *mid, last = xs`: split / join arithmetic on the list `xs`"""
+        xs, tx = self.expr(value)
+        elts = target.elts
+        names = [e.value.id if isinstance(e, ast.Starred) and isinstance(e.value, ast.Name) else
+                 (e.id if isinstance(e, ast.Name) else None) for e in elts]
+        stars = [i for i, e in enumerate(elts) if isinstance(e, ast.Starred)]
+        if tx != "list" or None in names or len(stars) != 1:
+            for n in names:
+                if n:
+                    self.locals.pop(n, None)
+            raise Untranslatable("unsupported unpacking")
+        i = stars[0]
+        before, after = names[:i], names[i + 1:]
+        if len(before) > 1 or len(after) > 1:
+            for n in names:
+                self.locals.pop(n, None)
+            raise Untranslatable("unpacking with more than one fixed name on a side")
+        core = xs
+        if before:
+            self.locals[before[0]] = (f"(({xs}).headD [])", "str")
+            core = f"(({core}).drop 1)"
+        if after:
+            self.locals[after[0]] = (f"(({xs}).getLast?.getD [])", "str")
+            core = f"(({core}).dropLast)"
+        self.locals[names[i]] = (core, "list")
+
     def run(self, stmts):
         """straight-line assignments / `+=` to names; everything else is skipped"""
         for st in stmts:
             try:
-                if isinstance(st, ast.Assign) and len(st.targets) == 1 and isinstance(st.targets[0], ast.Name):
+                if isinstance(st, ast.Assign) and len(st.targets) == 1 and isinstance(st.targets[0], (ast.Tuple, ast.List)):
+                    self._unpack(st.targets[0], st.value)
+                elif isinstance(st, ast.Assign) and len(st.targets) == 1 and isinstance(st.targets[0], ast.Name):
                     self.locals[st.targets[0].id] = self.expr(st.value)
                 elif isinstance(st, ast.AugAssign) and isinstance(st.op, ast.Add) and isinstance(st.target, ast.Name):
                     cur = self.binds.get(st.target.id) or self.locals.get(st.target.id, (None,))[0]
@@ -841,6 +870,77 @@ def _walk_stmts(body):
             yield from _walk_stmts(h.body)
 
 
+_TREES: dict[str, ast.Module] = {}
+
+
+def _file_tree(rel: str) -> ast.Module:
+    if rel not in _TREES:
+        import warnings
+
+        with warnings.catch_warnings():
+            warnings.simplefilter("ignore")
+            _TREES[rel] = ast.parse((REPO / rel).read_text())
+    return _TREES[rel]
+
+
+def resolver_helpers(tree: ast.Module, callee: str = "str_to_class") -> dict[str, tuple[int, int, list[str]]]:
+    """module-level functions that (possibly through each other) hand two of their own parameters to `callee(module, name)`:
+    name -> (index of the module parameter, index of the name parameter, parameter names).  What reaches `str_to_class` is the
+    semantics; the helper it travels through is not."""
+    fns = {st.name: st for st in tree.body if isinstance(st, ast.FunctionDef)}
+    out: dict[str, tuple[int, int, list[str]]] = {}
+    changed = True
+    while changed:
+        changed = False
+        for name, fn in fns.items():
+            if name in out:
+                continue
+            ps = [a.arg for a in fn.args.args]
+            for node in ast.walk(fn):
+                if not isinstance(node, ast.Call):
+                    continue
+                cname = ast.unparse(node.func).split(".")[-1]
+                args = _call_args(node, cname, callee, out)
+                if args is None:
+                    continue
+                m, a = args
+                if isinstance(m, ast.Name) and isinstance(a, ast.Name) and m.id in ps and a.id in ps \
+                        and not _reassigned(fn, {m.id, a.id}):
+                    out[name] = (ps.index(m.id), ps.index(a.id), ps)
+                    changed = True
+                    break
+    return out
+
+
+def _reassigned(fn: ast.FunctionDef, names: set[str]) -> bool:
+    for n in ast.walk(fn):
+        if isinstance(n, (ast.Assign, ast.AugAssign, ast.AnnAssign)):
+            tgts = n.targets if isinstance(n, ast.Assign) else [n.target]
+            for t in tgts:
+                for x in ast.walk(t):
+                    if isinstance(x, ast.Name) and x.id in names:
+                        return True
+    return False
+
+
+def _call_args(node: ast.Call, cname: str, callee: str, helpers: dict):
+    """(module expression, name expression) when `node` is a call of `callee` or of a resolver helper, else None"""
+    if cname == callee and len(node.args) == 2:
+        return node.args[0], node.args[1]
+    if cname in helpers:
+        mi, ai, ps = helpers[cname]
+        bound: dict[str, ast.AST] = {}
+        for i, a in enumerate(node.args):
+            if i < len(ps):
+                bound[ps[i]] = a
+        for k in node.keywords:
+            if k.arg:
+                bound[k.arg] = k.value
+        if ps[mi] in bound and ps[ai] in bound:
+            return bound[ps[mi]], bound[ps[ai]]
+    return None
+
+
 def _str_to_class_target(params: list[str], binds: dict[str, str], optional: dict[str, str] | None = None,
                          callee: str = "str_to_class"):
     """kernel = the (module, attribute) pair handed to the first `str_to_class(...)` call of the function"""
@@ -848,19 +948,25 @@ def _str_to_class_target(params: list[str], binds: dict[str, str], optional: dic
     def build(k: Kernel, fn: ast.FunctionDef) -> str:
         tr = StrTr(binds, optional)
         call = None
+        try:
+            helpers = resolver_helpers(_file_tree(k.file), callee)
+        except (OSError, SyntaxError):
+            helpers = {}
         flat = list(_walk_stmts(fn.body))
         for i, st in enumerate(flat):
             for node in ast.walk(st) if not isinstance(st, (ast.If, ast.For, ast.Try, ast.With, ast.While)) else []:
-                if isinstance(node, ast.Call) and ast.unparse(node.func).split(".")[-1] == callee and len(node.args) == 2:
-                    call = node
-                    break
+                if isinstance(node, ast.Call):
+                    got = _call_args(node, ast.unparse(node.func).split(".")[-1], callee, helpers)
+                    if got is not None:
+                        call = got
+                        break
             if call is not None:
                 break
             tr.run([st])
         if call is None:
             raise Untranslatable(f"`{callee}(module, name)` not found")
-        m, tm = tr.expr(call.args[0])
-        a, ta = tr.expr(call.args[1])
+        m, tm = tr.expr(call[0])
+        a, ta = tr.expr(call[1])
         if tm != "str" or ta != "str":
             raise Untranslatable("arguments are not strings")
         lam = " ".join(params)
@@ -888,39 +994,107 @@ def _merge_steps(k: Kernel, fn: ast.FunctionDef) -> str:
     steps: list[tuple[int, int]] = []
     skip: list[str] = []
     sections: list[str] = []
+    try:
+        module = _file_tree(k.file)
+    except (OSError, SyntaxError):
+        module = ast.Module(body=[], type_ignores=[])
+    helpers = {st.name: st for st in module.body if isinstance(st, ast.FunctionDef) and st.name != fn.name}
+    consts: dict[str, list[str]] = {}
+    for st in module.body:
+        if isinstance(st, ast.Assign) and len(st.targets) == 1 and isinstance(st.targets[0], ast.Name) \
+                and isinstance(st.value, (ast.Tuple, ast.List)) and all(isinstance(e, ast.Constant) and isinstance(e.value, str)
+                                                                       for e in st.value.elts):
+            consts[st.targets[0].id] = [e.value for e in st.value.elts]
+    KNOWN_STEPS = {"load_models_into_environment_config", "build_operators", "initialize_models_from_config", "setup_engine",
+                   "load_dataset_config", "extract_names", "setup_logging", "check_is_valid_url", "read_text_from_url"}
 
-    def classify(st: ast.stmt, depth: int, loop_var: str | None):
+    def key_list(node) -> list[str] | None:
+        """a literal list / tuple of strings, a module-level constant holding one, or a `+` of those"""
+        if isinstance(node, (ast.List, ast.Tuple)) and all(isinstance(e, ast.Constant) for e in node.elts):
+            return [e.value for e in node.elts]
+        if isinstance(node, ast.Name) and node.id in consts:
+            return list(consts[node.id])
+        if isinstance(node, ast.BinOp) and isinstance(node.op, ast.Add):
+            a, b = key_list(node.left), key_list(node.right)
+            return None if a is None or b is None else a + b
+        return None
+
+    def membership(test, loop_var) -> list[str] | None:
+        if loop_var and isinstance(test, ast.Compare) and len(test.ops) == 1 and isinstance(test.ops[0], ast.In) \
+                and isinstance(test.left, ast.Name) and test.left.id == loop_var:
+            return key_list(test.comparators[0])
+        return None
+
+    class _Rename(ast.NodeTransformer):
+        def __init__(self, m):
+            self.m = m
+
+        def visit_Name(self, node):
+            return ast.copy_location(ast.Name(id=self.m.get(node.id, node.id), ctx=node.ctx), node)
+
+    def inlined(st: ast.stmt, stack: tuple) -> list[ast.stmt] | None:
+        """body of the private helper a statement calls (`f(...)` / `x = f(...)` / `return f(...)`), parameters renamed to
+        the argument names — the helper's statements take the place of the call"""
+        call = None
+        if isinstance(st, ast.Expr) and isinstance(st.value, ast.Call):
+            call = st.value
+        elif isinstance(st, (ast.Assign, ast.Return)) and isinstance(st.value, ast.Call):
+            call = st.value
+        if call is None or not isinstance(call.func, ast.Name):
+            return None
+        name = call.func.id
+        if name not in helpers or name in KNOWN_STEPS or name in stack:
+            return None
+        h = helpers[name]
+        ps = [a.arg for a in h.args.args]
+        m = {}
+        for i, a in enumerate(call.args):
+            if i < len(ps) and isinstance(a, ast.Name):
+                m[ps[i]] = a.id
+        for kw in call.keywords:
+            if kw.arg and isinstance(kw.value, ast.Name):
+                m[kw.arg] = kw.value.id
+        import copy
+
+        return [_Rename(m).visit(copy.deepcopy(s)) for s in h.body]
+
+    def classify(st: ast.stmt, depth: int, loop_var: str | None, stack: tuple = ()):
+        body = inlined(st, stack)
+        if body is not None:
+            name = st.value.func.id
+            for s2 in body:
+                classify(s2, depth, loop_var, stack + (name,))
+            return
         src = ast.unparse(st).replace(" ", "")
         if isinstance(st, ast.For) and "cfg_from_external_source" in ast.unparse(st.iter):
             steps.append((9, depth))
             lv = ast.unparse(st.target)
             for s2 in st.body:
-                classify(s2, depth + 1, lv)
+                classify(s2, depth + 1, lv, stack)
             return
         if isinstance(st, ast.If):
             test = ast.unparse(st.test).replace(" ", "")
             only_continue = len(st.body) >= 1 and isinstance(st.body[-1], ast.Continue)
-            if loop_var and test.startswith(f"{loop_var}in[") and only_continue and depth == 1:
+            keys = membership(st.test, loop_var)
+            if keys is not None and only_continue and depth == 1:
                 steps.append((10, depth))
-                lst = st.test.comparators[0]
-                skip.extend(e.value for e in lst.elts if isinstance(e, ast.Constant))
+                skip.extend(keys)
                 return
-            if loop_var and test.startswith(f"{loop_var}in[") and depth == 1:
-                lst = st.test.comparators[0]
-                sections.extend(e.value for e in lst.elts if isinstance(e, ast.Constant))
+            if keys is not None and depth == 1:
+                sections.extend(keys)
             if loop_var and test.startswith("notcfg_from_external_source[") and only_continue:
                 steps.append((11, depth))
                 return
             for s2 in st.body + st.orelse:
-                classify(s2, depth + 1, loop_var)
+                classify(s2, depth + 1, loop_var, stack)
             return
         if isinstance(st, (ast.With, ast.Try)):
             for s2 in st.body:
-                classify(s2, depth, loop_var)
+                classify(s2, depth, loop_var, stack)
             return
         if isinstance(st, ast.For):
             for s2 in st.body:
-                classify(s2, depth + 1, loop_var)
+                classify(s2, depth + 1, loop_var, stack)
             return
         if "OmegaConf.load(" in src and src.startswith("cfg_from_external_source="):
             steps.append((1, depth))
